@@ -117,8 +117,16 @@ class Parser:
         if tok == "-":
             self.eat()
             a = self.atom()
+            if self.peek() == ")":
+                self.eat(")")
+                return -a
+            a = -a                      # (-N / D): negative rational literal
+            op = self.eat()
+            b = self.atom()
             self.eat(")")
-            return -a
+            if op == "/" and isinstance(a, Fraction) and isinstance(b, Fraction):
+                return a / b
+            raise ValueError("unexpected operator after unary minus: %s" % op)
         if tok == "/":
             self.eat()
             a = self.atom()
@@ -259,9 +267,7 @@ def main(argv):
                     if nnz[k]:
                         dm = ca.DM(sp, vals[k])
                     ins.append(dm)
-                out = f(*ins)
-                if not isinstance(out, (list, tuple)):
-                    out = [out]
+                out = f.call(ins)
                 ref = []
                 for o in out:
                     ref += list(np.array(ca.DM(o).full()).flatten(order="F")) if o.numel() else []
